@@ -431,6 +431,26 @@ class Interp:
         else:
             raise Unsupported(f"assignment target {type(t).__name__}")
 
+    def dedupe_opaque(self, items, site):
+        """Set semantics over values whose equality is unknown (opaque literals): fork per pair."""
+        opaque = [x for x in items if isinstance(x, Sym) and x.kind != "ident"]
+        if len(opaque) > 3:
+            raise Unsupported(f"set() over {len(opaque)} opaque literal values at {site}")
+        out = []
+        for x in items:
+            dup = False
+            for y in out:
+                if _same(x, y):
+                    dup = True
+                elif isinstance(x, Sym) and isinstance(y, Sym) and x.kind != "ident" and y.kind != "ident":
+                    if self.choose(f"equal({x.src},{y.src}) in a set at {site}"):
+                        dup = True
+                if dup:
+                    break
+            if not dup:
+                out.append(x)
+        return out
+
     def dict_key(self, d: ADict, k, site):
         """Key under which `k` is stored/looked up.  Two different opaque literals may or may not be
         equal: the decision is forked, since the generated text then depends on literal content."""
@@ -708,7 +728,7 @@ class Interp:
             if attr == "name":
                 return Tmpl.lit(o.member)
             if attr == "value":
-                raise Unsupported(f"enum .value ({site})")
+                return self.enum_value(o, site)
         if isinstance(o, (Tmpl, AList, ASet, ADict, Sym)):
             return BoundMethod(o, attr)
         if isinstance(o, ExtVal):
@@ -717,6 +737,31 @@ class Interp:
             m = self.src.by_dotted(o.name)
             return self.global_lookup(m, attr)
         raise Unsupported(f"attribute {attr} of {type(o).__name__} ({site})")
+
+    def enum_members(self, clsname, site):
+        for m in self.src.modules.values():
+            c = m.classes().get(clsname)
+            if c is not None and self.class_val(m, c).kind == "enum":
+                out = []
+                for st in c.body:
+                    if isinstance(st, ast.Assign) and len(st.targets) == 1 and isinstance(st.targets[0], ast.Name):
+                        out.append((st.targets[0].id, st.value, m))
+                return out
+        raise Unsupported(f"enum class {clsname} not found ({site})")
+
+    def enum_value(self, ev: EnumVal, site):
+        auto_n = 0
+        for name, val, m in self.enum_members(ev.cls, site):
+            if isinstance(val, ast.Call) and (dotted(val.func) or "").split(".")[-1] == "auto":
+                auto_n += 1
+                v = auto_n
+            else:
+                v = self.eval(val, Env(m, {}))
+                if isinstance(v, int):
+                    auto_n = v
+            if name == ev.member:
+                return v
+        raise Unsupported(f"enum member {ev.cls}.{ev.member} not found ({site})")
 
     def class_attr(self, cv: ClassVal, attr, inst, site):
         c = cv
@@ -777,6 +822,8 @@ class Interp:
                 return AList(o.items[slice(lo, hi, st)], o.pytype, o.nondet)
             if isinstance(o, Tmpl) and o.is_literal():
                 return Tmpl.lit(o.text()[slice(lo, hi, st)])
+            if isinstance(o, Tmpl) and all(isinstance(x, int) or x is None for x in (lo, hi, st)):
+                return self.slice_tmpl(o, slice(lo, hi, st), site)
             if isinstance(o, Sym) and o.kind == "rawtoken":
                 return Sym("str", o.src + f"[{lo}:{hi}]")
             raise Unsupported(f"slice of {type(o).__name__} ({site})")
@@ -793,7 +840,52 @@ class Interp:
             raise RaiseSig("KeyError", site)
         if isinstance(o, PVal) and isinstance(k, int):
             return o.values[k]
+        if isinstance(o, Tmpl) and isinstance(k, int):
+            if o.is_literal():
+                try:
+                    return Tmpl.lit(o.text()[k])
+                except IndexError:
+                    raise RaiseSig("IndexError", site)
+            return self.slice_tmpl(o, k, site)
         raise Unsupported(f"subscript of {type(o).__name__} ({site})")
+
+    def slice_tmpl(self, t: Tmpl, sl, site):
+        """Index/slice of a string that contains rendered opaque values.  Literal edges are cut
+        exactly; a cut that falls inside a rendered value yields a hole whose renderer records the
+        cut (no longer a complete literal: judged by the renderer rules)."""
+        desc = f"[{sl}]" if isinstance(sl, int) else f"[{'' if sl.start is None else sl.start}:{'' if sl.stop is None else sl.stop}" \
+            + (f":{sl.step}" if sl.step is not None else "") + "]"
+        if len(t.parts) == 1 and isinstance(t.parts[0], Hole):
+            h = t.parts[0]
+            return Tmpl((Hole(h.sym, h.render + desc, site),), t.nondet)
+        # cuts confined to literal text at the ends
+        parts = list(t.parts)
+        if isinstance(sl, int):
+            edge = parts[-1] if sl < 0 else parts[0]
+            if isinstance(edge, str) and (len(edge) >= -sl if sl < 0 else len(edge) > sl):
+                return Tmpl.lit(edge[sl])
+            if isinstance(edge, Hole):
+                return Tmpl((Hole(edge.sym, edge.render + desc, site),))
+        elif sl.step is None:
+            a, b = sl.start, sl.stop
+            ok = True
+            if a is not None:
+                if a >= 0 and isinstance(parts[0], str) and len(parts[0]) >= a:
+                    parts[0] = parts[0][a:]
+                elif a >= 0 and isinstance(parts[0], Hole):
+                    parts[0] = Hole(parts[0].sym, parts[0].render + f"[{a}:]", site)
+                else:
+                    ok = False
+            if b is not None and ok:
+                if b < 0 and isinstance(parts[-1], str) and len(parts[-1]) >= -b:
+                    parts[-1] = parts[-1][:b]
+                elif b < 0 and isinstance(parts[-1], Hole):
+                    parts[-1] = Hole(parts[-1].sym, parts[-1].render + f"[:{b}]", site)
+                else:
+                    ok = False
+            if ok:
+                return Tmpl(parts, t.nondet)
+        raise Unsupported(f"slice {desc} of a generated string cuts at an undetermined position ({site})")
 
     def ev_List(self, n, env):
         return AList(self._elts(n.elts, env), "list")
@@ -870,6 +962,14 @@ class Interp:
                 return AList(a.items + b.items, a.pytype, a.nondet + b.nondet)
             if _isnum(a) and _isnum(b):
                 return a + b
+            num = lambda x: isinstance(x, Sym) and x.kind in ("int", "float")  # noqa: E731
+            if num(a) and _isnum(b) and b == 0:
+                return a
+            if num(b) and _isnum(a) and a == 0:
+                return b
+            if (num(a) or _isnum(a)) and (num(b) or _isnum(b)):
+                k = "int" if all((isinstance(x, Sym) and x.kind == "int") or isinstance(x, int) for x in (a, b)) else "float"
+                return Sym(k, f"({_describe(a)}+{_describe(b)})", coerced=(("arith", "sum", "arithmetic on literal values", site),))
         if isinstance(op, ast.Sub) and _isnum(a) and _isnum(b):
             return a - b
         if isinstance(op, ast.Mult):
@@ -1004,6 +1104,9 @@ class Interp:
             return self.choose(f"length order at {site}")
         if _isnum(a) and _isnum(b):
             return {ast.Lt: a < b, ast.LtE: a <= b, ast.Gt: a > b, ast.GtE: a >= b}[type(op)]
+        if any(isinstance(x, Sym) and x.kind in ("int", "float") for x in (a, b)) and all(
+                _isnum(x) or (isinstance(x, Sym) and x.kind in ("int", "float")) for x in (a, b)):
+            return self.choose(f"{_describe(a)} {type(op).__name__} {_describe(b)} at {site}")
         raise Unsupported(f"ordering of {type(a).__name__},{type(b).__name__} at {site}")
 
     def contains(self, container, x, site):
@@ -1063,6 +1166,8 @@ class Interp:
             return [self._unkey(k) for k in v.items]
         if isinstance(v, _MapIter):
             return v.items
+        if isinstance(v, ClassVal) and v.kind == "enum":
+            return [EnumVal(v.name, n) for n, _, _ in self.enum_members(v.name, site)]
         raise Unsupported(f"iteration over {type(v).__name__} at {site}")
 
     def ev_ListComp(self, n, env):
@@ -1335,6 +1440,8 @@ class Interp:
                 return len(v.text()) if v.is_literal() else MinLen(v.min_len())
             if isinstance(v, PVal):
                 return len(v.values)
+            if isinstance(v, ClassVal) and v.kind == "enum":
+                return len(self.enum_members(v.name, site))
             raise Unsupported(f"len of {type(v).__name__} at {site}")
         if name == "sorted":
             v = args[0]
@@ -1388,7 +1495,7 @@ class Interp:
             if not args:
                 return ASet([])
             items = [x.value if isinstance(x, _Tagged) else x for x in self.iterate(args[0], site)]
-            return ASet(_dedupe(items))
+            return ASet(self.dedupe_opaque(items, site))
         if name == "dict" and not args:
             return ADict(dict(kwargs))
         if name == "isinstance":
@@ -1575,6 +1682,12 @@ class Interp:
 
     def external(self, f: "ExtVal", args, kwargs, site):
         q = f"{f.module}.{f.attr}" if f.attr else f.module
+        if q == "re.compile":
+            return ExtVal("re", "Pattern()")
+        if q in ("re.Pattern().match", "re.Pattern().fullmatch", "re.Pattern().search", "re.match", "re.fullmatch", "re.search"):
+            subj = args[-1] if args else None
+            if isinstance(subj, (Sym, Tmpl)):
+                return True if self.choose(f"{q.split('.')[-1]}() of a pattern on {_describe(subj)} at {site}") else None
         if q in ("json.dumps",) and args:
             v = args[0]
             if isinstance(v, Sym):
